@@ -422,6 +422,10 @@ class Ref:
             self.objective = {r: 1.0 for r in rx}
         elif kind == "dict":
             self.objective = {r: float(c) for r, c in zip(rx, op["coefs"]) if c != 0}
+        elif kind == "expr":
+            terms = {r: float(c) for r, c in zip(rx, op["coefs"]) if c != 0}
+            if terms:
+                self.objective = terms
         elif kind.startswith("obj_"):
             if kind.startswith("obj_new"):
                 self.objective = {r: float(c) for r, c in zip(rx, op["coefs"]) if c != 0}
